@@ -17,10 +17,12 @@ pub mod env;
 pub mod vm;
 
 pub mod c23_header;
+pub mod c33_align;
 
 /// Table of all bodies for the native replayer.
 pub fn replay_table() -> Vec<(&'static str, fn(&mut Src))> {
     let mut v: Vec<(&'static str, fn(&mut Src))> = Vec::new();
     v.extend_from_slice(c23_header::TABLE);
+    v.extend_from_slice(c33_align::TABLE);
     v
 }
